@@ -128,9 +128,19 @@ func runC16(env *core.Env) {
 		pre int
 		c   c10Case
 	}
+	// a store whose lock path cannot be opened as a file (a directory sits there): every writer fails at its first or - if
+	// it orders its steps differently - at a later step; whatever it printed by then, the failing-command rule applies
+	// (success-oriented requests only)
+	lockDir := rich.Store.Clone()
+	delete(lockDir, ".ergo/lock")
+	lockDir["D:.ergo/lock"] = nil
+	pres = append(pres, lockDir)
 	var jobs []job
 	for pi := range pres {
 		for _, c := range cases {
+			if pi == len(pres)-1 && c.Site != "extra" {
+				continue
+			}
 			jobs = append(jobs, job{pi, c})
 		}
 	}
